@@ -109,9 +109,16 @@ for case in job["cases"]:
         src.update(case.get("extra", {}))
         r = {}
         try:
+            before = json.dumps(src, sort_keys=True, default=repr)
             obj = cls.from_dict(src)
             v = getattr(obj, pyname)
             r["dec"] = "ok"
+            # decoding reads its argument: the caller's payload is left as it was, and decoding it again gives an equal object
+            r["src_unchanged"] = json.dumps(src, sort_keys=True, default=repr) == before
+            try:
+                r["again_equal"] = cls.from_dict(src) == obj
+            except Exception as e:  # noqa: BLE001
+                r["again_equal"] = "raise:" + type(e).__name__
             r["py"] = pyclass(v)
             if hint is not None and "__error__" not in hints:
                 r["truthful"] = conforms(v, hint, None)
